@@ -55,3 +55,53 @@ Definition spec_keybits_line (toks : list (list byte)) : list byte :=
   | Some nm => match curve_bits nm with Some b => str "= " ++ show_optN (Some b) | None => str "any" end
   | None => str "= None"
   end.
+
+(* cipher registry by name:  @from_name <hex of the string>  ->  (Some <id>) | None *)
+From TlsModel Require Import Ciphers CipherTxt CipherSpec.
+Definition run_from_name_line (toks : list (list byte)) : list byte :=
+  let s := string_of_list_byte (unhex (nth 0 toks [])) in
+  show_optN (option_map c_id (from_name s)).
+Definition spec_from_name_line (toks : list (list byte)) : list byte :=
+  let s := string_of_list_byte (unhex (nth 0 toks [])) in
+  match interp_all txt_rows with
+  | Some rows => str "= " ++ show_optN (option_map c_id (find (fun r => String.eqb (c_name r) s) rows))
+  | None => str "any"
+  end.
+
+(* one registry row by id:  @cipher <id>  ->  None | (Some id "name" Kx Au Enc Mode bits Mac macbits Prf keybytes block maclen) *)
+From TlsModel Require Import Iana2026.
+Definition kx_name k := match k with KxNull => "Null" | KxPsk => "Psk" | KxKrb5 => "Krb5" | KxSrp => "Srp" | KxRsa => "Rsa"
+  | KxDh => "Dh" | KxDhe => "Dhe" | KxEcdh => "Ecdh" | KxEcdhe => "Ecdhe" | KxAecdh => "Aecdh" | KxEccpwd => "Eccpwd" | KxTls13 => "Tls13" end%string.
+Definition au_name k := match k with AuNull => "Null" | AuPsk => "Psk" | AuKrb5 => "Krb5" | AuSrp => "Srp" | AuSrp_Dss => "Srp_Dss"
+  | AuSrp_Rsa => "Srp_Rsa" | AuDss => "Dss" | AuRsa => "Rsa" | AuDhe => "Dhe" | AuEcdsa => "Ecdsa" | AuEccpwd => "Eccpwd" | AuTls13 => "Tls13" end%string.
+Definition enc_name k := match k with EncNull => "Null" | EncDes => "Des" | EncTripleDes => "TripleDes" | EncRc2 => "Rc2" | EncRc4 => "Rc4"
+  | EncAria => "Aria" | EncIdea => "Idea" | EncSeed => "Seed" | EncAes => "Aes" | EncCamellia => "Camellia"
+  | EncChacha20_Poly1305 => "Chacha20_Poly1305" | EncSm4 => "Sm4" | EncAegis => "Aegis" end%string.
+Definition mode_name k := match k with ModeNull => "Null" | ModeCbc => "Cbc" | ModeCcm => "Ccm" | ModeGcm => "Gcm" end%string.
+Definition mac_name k := match k with MacNull => "Null" | MacHmacMd5 => "HmacMd5" | MacHmacSha1 => "HmacSha1" | MacHmacSha256 => "HmacSha256"
+  | MacHmacSha384 => "HmacSha384" | MacHmacSha512 => "HmacSha512" | MacAead => "Aead" end%string.
+Definition prf_name k := match k with PrfDefault => "Default" | PrfNull => "Null" | PrfMd5AndSha1 => "Md5AndSha1" | PrfSha1 => "Sha1"
+  | PrfSha256 => "Sha256" | PrfSha384 => "Sha384" | PrfSha512 => "Sha512" | PrfSm3 => "Sm3" end%string.
+Definition show_row (r : cipher_row) (k b m : N) : list byte :=
+  str "(Some " ++ dec (c_id r) ++ x20 :: qs (Some (c_name r)) ++ x20 :: str (kx_name (c_kx r)) ++ x20 :: str (au_name (c_au r)) ++
+  x20 :: str (enc_name (c_enc r)) ++ x20 :: str (mode_name (c_mode r)) ++ x20 :: dec (c_enc_size r) ++ x20 :: str (mac_name (c_mac r)) ++
+  x20 :: dec (c_mac_size r) ++ x20 :: str (prf_name (c_prf r)) ++ x20 :: dec k ++ x20 :: dec b ++ x20 :: dec m ++ str ")".
+Definition run_cipher_line (toks : list (list byte)) : list byte :=
+  match from_id (parse_dec (nth 0 toks [])) with
+  | Some r => show_row r (enc_key_size r) (enc_block_size r) (mac_length r)
+  | None => str "None"
+  end.
+(* spec: today's IANA assignment if there is one, else the text table; sizes by the property's rules *)
+Definition spec_sizes (r : cipher_row) : list byte :=
+  let m := match c_mac r with MacNull | MacAead => 0 | _ => c_mac_size r / 8 end in
+  show_row r (c_enc_size r / 8) (block_spec (c_enc r)) m.
+Definition spec_cipher_line (toks : list (list byte)) : list byte :=
+  let id := parse_dec (nth 0 toks []) in
+  match find_id id iana2026 with
+  | Some r => str "= " ++ spec_sizes r
+  | None =>
+      match interp_all txt_rows with
+      | Some rows => match find_id id rows with Some r => str "= " ++ spec_sizes r | None => str "= None" end
+      | None => str "any"
+      end
+  end.
